@@ -127,21 +127,36 @@ func interopCase(t *testing.T, r *rig.Rig, g func(string) string) engine.Result 
 		return engine.Bad(hrule, "helper-output-unparsable", "C14/helper-assertion-unparsable/"+g("helper"), "helper output is not a compact JWS with a JSON payload: "+tok)
 	}
 	relIat, relExp := -int64(age/time.Second), -int64(age/time.Second)+int64(lifetime/time.Second)
-	if claims.Iss != k.id || claims.Sub != sub || !slices.Equal([]string(claims.Aud), aud) || claims.Iat != eT0.Unix()+relIat || claims.Exp != eT0.Unix()+relExp || p.kid != k.kid {
-		return engine.Bad(hrule, "helper-output-differs", "C14/helper-assertion-claims-differ/"+g("helper"),
-			fmt.Sprintf("helper output header kid=%q payload=%s; asked for iss=%s sub=%s aud=%v iat=%d exp=%d kid=%s", p.kid, p.payload, k.id, sub, aud, eT0.Unix()+relIat, eT0.Unix()+relExp, k.kid))
-	}
 	if !verifies(p, keys.Get(k.fixture).Pub) {
+		// such an assertion cannot be accepted by any provider that honours the first sentence of the statement
 		return engine.Bad(hrule, "helper-output-not-signed", "C14/helper-assertion-not-signed-by-given-key/"+g("helper"), fmt.Sprintf("helper output (alg %s) does not verify under the given key %s", p.alg, k.fixture))
 	}
+	differs := claims.Iss != k.id || claims.Sub != sub || !slices.Equal([]string(claims.Aud), aud) || claims.Iat != eT0.Unix()+relIat || claims.Exp != eT0.Unix()+relExp || p.kid != k.kid
+	unlisted := !listedAlgs[p.alg] && g("key") != "ed25519"
 	a := assertionT{iss: k.id, sub: sub, aud: g("aud"), iat: fmt.Sprint(relIat), exp: fmt.Sprint(relExp), kid: k.kid, signer: "helper", subPolicy: "iss"}
 	now := eT0.Add(250 * time.Millisecond)
-	switch g("use") {
+	use := g("use")
+	if differs || unlisted {
+		// the helper did not produce what it was asked for (claims, kid) or chose an algorithm
+		// the provider does not list for an RSA / P-256 key: only completeness is judged —
+		// what was asked for must still be accepted
+		use = "direct"
+	}
+	switch use {
 	case "direct", "direct-keyset":
 		expect, rule := judge(a, tok, eT0, now, providerCfg)
+		if unlisted && expect == either {
+			expect = mustAccept
+		}
+		if differs && expect == mustReject {
+			expect = either
+		}
 		rule = hrule + ":" + rule
+		if differs || unlisted {
+			rule = hrule + ":output-not-as-asked"
+		}
 		ver := op.NewJWTProfileVerifier(r.Storage, I, providerCfg.maxAge, providerCfg.offset)
-		if g("use") == "direct-keyset" {
+		if use == "direct-keyset" {
 			ver = op.NewJWTProfileVerifierKeySet(issKeySet{}, I, providerCfg.maxAge, providerCfg.offset)
 		}
 		var req *oidc.JWTTokenRequest
@@ -149,7 +164,7 @@ func interopCase(t *testing.T, r *rig.Rig, g func(string) string) engine.Result 
 		pan := engine.Bubble(t, now.Sub(engine.Epoch), func() {
 			req, err = op.VerifyJWTAssertion(context.Background(), tok, ver)
 		})
-		site := "/" + g("use")
+		site := "/" + use
 		outcome := "accepted"
 		switch {
 		case pan != "":
@@ -163,7 +178,7 @@ func interopCase(t *testing.T, r *rig.Rig, g func(string) string) engine.Result 
 			return engine.Bad(rule, outcome, "C14/accepted-despite:"+rule+site, "the statement requires rejection but the assertion was accepted: "+desc)
 		case expect == mustAccept && outcome != "accepted":
 			return engine.Bad(rule, outcome, "C14/helper-made-assertion-not-honoured"+site, fmt.Sprintf("assertion made by the library's own helper rejected (%v %s): %s", err, pan, desc))
-		case outcome == "accepted" && (req == nil || req.Issuer != k.id):
+		case outcome == "accepted" && !differs && (req == nil || req.Issuer != k.id):
 			return engine.Bad(rule, outcome, "C14/identity-differs-from-iss"+site, "returned issuer differs from iss: "+desc)
 		}
 		return engine.OK(rule, outcome)
